@@ -132,8 +132,13 @@ def rule_refcnt_siblings(fx, col):
             src = b.origins(0, through_calls=thr, binops=True)
             def mapped_conversion(t):
                 # `opt.map(T::into_ptr)` / `.map(|x| T::as_ptr(x))`: the inner kind's own conversion applied under the Option
-                if U.callee_name(t) != 'map' or 'option::Option' not in t['callee'].get('path', ''):
+                if U.callee_name(t) not in ('map', 'map_or', 'map_or_else', 'and_then') or 'option::Option' not in t['callee'].get('path', ''):
                     return False
+                if U.callee_name(t) == 'map_or':
+                    # `opt.map_or(ptr::null_mut(), T::as_ptr)`: the default operand must be the null pointer
+                    d0 = U.def_rvalue(b, t['args'][1]) if len(t['args']) > 2 else None
+                    if not (d0 and d0[0] == 'call' and U.callee_name(d0[2]) in ('null_mut', 'null')):
+                        return False
                 for a in t['args'][1:]:
                     if a['k'] == 'const' and re.search(r'RefCnt>::(into_ptr|as_ptr)$', a['c'].get('fn_pretty') or a['c'].get('text') or ''):
                         return True
